@@ -5,6 +5,15 @@
 // never iterates a Go map to produce output, uses no time, no global
 // math/rand and no goroutines.
 //
+// On top of the basic bundle there are 16 "exotic but valid" shapes (type
+// Exotic below), each switched on independently by the seed (taking effect
+// in roughly 8-16% of the DefaultConfig bundles) and recorded in
+// Bundle.Features as "x_<name>". They replace ordinary content, so that a
+// bundle costs about 10% more to compile than without them.
+// GenerateWith(seed, cfg, Tuning{Force, Forbid}) forces / forbids shapes;
+// with Forbid: AllExotic the files and dependencies are byte-identical to
+// what the generator produced before the shapes existed.
+//
 // ---------------------------------------------------------------------------
 // AVOIDED CONSTRUCTS / COMPILER LIMITATIONS FOUND (do not emit; error shown)
 // ---------------------------------------------------------------------------
@@ -113,6 +122,61 @@
 //	      using a leading dot" (relative type names for inline schemas).
 //	=> the field-name pool and the type-name pool are disjoint.
 //
+// L19. User files in the directories of the generated sub-packages
+//
+//	(foo/v1/service/x.proto, foo/v1/topic/x.j5s): protobuild
+//	sourceResolver.listPackageFiles drops every file whose directory is
+//	not exactly the package directory, so such files are silently ignored;
+//	importing one from a .j5s file fails with
+//	  loadExternalPackage use.v1.service: package files for use.v1.service:
+//	  no files for package at use/v1/service
+//	and listing "use.v1.service" as a local package of its own fails with
+//	  resolve file use/v1/service/stray.j5s.proto: findFileByPath: file
+//	  use/v1/service/stray.j5s.proto not found in package use.v1
+//	(packageForFile maps the file back to use.v1).
+//	=> sub-package layouts for user files are NOT supported; the only shape
+//	generated is a stray hand-written .proto there which nothing imports
+//	(XStrayFile; HEAD ignores it).
+//
+// L20. `import foo.v1:alias` registers ONLY the alias: a reference written
+//
+//	with the full name then fails with
+//	  package "foo.v1" not imported (for schema Thing)
+//	(`import foo.v1` registers both "foo" and "foo.v1"; `import "foo/v1/x.proto"`
+//	only "foo.v1").
+//
+// L21. Alias clashes are not errors: j5convert.j5Imports fills a map in file
+//
+//	order, so the LAST import defining an alias owns it (`import foo.bar.v1`
+//	+ `import baz.bar.v1`: bar.Thing is baz.bar.v1.Thing; `import a.v1` +
+//	`import b.v1:a`: a.Thing is b.v1.Thing). A reference through the alias
+//	to a type that only the shadowed package has fails with "type X not
+//	found in package ...". Imports that lost their alias are only
+//	reported as "import not used" warnings.
+//	=> the generator tracks the owner of every alias per file, writes the
+//	owner last, and uses full names for the shadowed package.
+//
+// L22. DEFECT FOUND (order dependence, not generated unless forced):
+//
+//	two DEPENDENCY packages whose directories are string prefixes of each
+//	other (extone/v1 and extone/v10). dependencyResolver.listPackageFiles
+//	asks DependencySet.ListDependencyFiles("extone/v1") and the real
+//	implementation (internal/source/deps.go imageFiles.ListDependencyFiles)
+//	matches with strings.HasPrefix(name, prefix) WITHOUT a trailing "/", so
+//	the files of extone.v10 are loaded into package extone.v1 as well and
+//	their exports are merged by name (Package.includeIO, last file wins):
+//	`object:extone.v1.Thing` compiles to extone.v10.Thing or to
+//	extone.v1.Thing DEPENDING ON THE ORDER in which the dependency files
+//	are listed. No error. Shape: Tuning{Force: XDepPkgPrefix} (or set
+//	depPkgPrefixPct below to let the seed choose it); minimal
+//	reproducer: TestDepPrefixListingOrder in gen_selfcheck_test.go.
+//	(Local packages are safe: their listing is filtered by directory.)
+//
+// Foreign keys (`foreign = pkg.v1.entity` / `foreign = entity`) are copied
+// into (j5.ext.v1.key).foreign_key verbatim and never resolved: the entity
+// and its package need not exist or be imported.
+// Entity, service, method and topic-message descriptions are dropped.
+//
 // PERFORMANCE (why bundles are kept small): protoprint/optionreflect
 // Builder.OptionsFor calls protodesc.ToFileDescriptorProto(parentFile) for
 // EVERY message, field, enum, enum value, method... it prints, so printing is
@@ -139,7 +203,7 @@ import (
 
 // Config bounds the size of a generated bundle.
 type Config struct {
-	MaxPackages        int // local packages, 1..3
+	MaxPackages        int // local packages, 1..3 (with MaxPackages >= 3 the deep-package-graph shape, ~10% of the seeds, makes 4-5 smaller packages instead)
 	MaxFilesPerPackage int // 1..3 .j5s files plus optional hand-written .proto files
 	MaxElements        int // top-level elements per file; > 4 also switches to "large" mode (always MaxPackages packages, >= 1 dep, more fields / methods / events per element)
 	MaxDeps            int // external dependency packages 0..2
@@ -235,6 +299,18 @@ type pkgInfo struct {
 	names  map[string]bool // reserved identifiers (membership only; never iterated)
 	ents   []string        // entity names (snake) defined in this package
 	sorted int             // index in sorted local package list (locals only)
+
+	// exotic shapes (all maps: membership only, never iterated)
+	restrict   bool              // allowed is in force (deep package graph)
+	allowed    map[*pkgInfo]bool // local packages this one may import
+	twin       *pkgInfo          // earlier package whose file and type names are mirrored
+	protoOnly  bool              // only hand-written .proto files
+	entityOnly bool              // a single .j5s file with only an entity
+	fileNames  []string          // base names of the .j5s files (dep packages: .proto files)
+	twoProtos  bool              // XFileOptions: at least two hand-written protos next to the .j5s files
+	goPackages []string          // go_package values used by the hand-written protos so far
+	imported   map[*pkgInfo]bool // packages some file of this package imports
+	avoid      map[*pkgInfo]bool // packages that must not be imported (bare foreign refs)
 }
 
 type typeInfo struct {
@@ -256,12 +332,110 @@ type gen struct {
 	types []*typeInfo // all types of files completed so far
 	pkgs  []*pkgInfo  // local packages in generation order
 	deps  []*pkgInfo  // dependency packages in generation order
+
+	x         Exotic        // exotic shapes switched on for this bundle
+	deep      bool          // deep package graph planned (XDeepGraph took effect)
+	firstJ5s  bool          // no .j5s file generated yet
+	prefixA   *pkgInfo      // XPkgPrefix: the two packages whose names are prefixes of each other
+	prefixB   *pkgInfo      // ... (prefixB mirrors prefixA)
+	sharedA   *pkgInfo      // XSharedShort: the two packages sharing their short name ...
+	sharedB   *pkgInfo      // ... (sharedB mirrors sharedA)
+	sharedImp *pkgInfo      // ... and the local package that imports both
+	barePairs [][2]*pkgInfo // XBareForeign: (referring package, package of the entity) without an import between them
 }
 
 func (g *gen) feat(name string) { g.b.Features[name]++ }
 
+func (g *gen) on(x Exotic) bool { return g.x&x != 0 }
+
+// Exotic is a bit set of the "exotic but valid" bundle shapes. Every shape is
+// switched on independently per bundle (by the seed) with the probability
+// listed in exoticPct; Bundle.Features has an entry "x_<name>" for every
+// shape that was switched on AND took effect.
+type Exotic uint32
+
+const (
+	XDottedFiles    Exotic = 1 << iota // order.j5s + order.refund.j5s, both with service/topic; core.proto next to core.j5s
+	XPkgPrefix                         // foo.v1 + foo.v10 / foo.bar.v1 + foo.barbaz.v1 with mirrored files and types
+	XSharedShort                       // foo.bar.v1 + baz.bar.v1 imported by one file, refs by short alias and full name
+	XAliasCollision                    // `import x.v1:alias` where alias is another package's implicit alias
+	XBareForeign                       // `foreign = parent` (no package) to entities of packages that are not imported
+	XDeepGraph                         // 4-5 local packages, 3-4 levels, level-skipping imports
+	XEntityRich                        // query { } block, 2-3 summaries, keys of every format, nested types used by events
+	XEnumRulesXref                     // rules.in / notIn on enums of other files / packages / protos / deps
+	XObjectExotic                      // flatten, required enum, required bare key, oneofs with many options
+	XProtoRich                         // hand-written protos: http services, option bodies, reserved, comments everywhere
+	XDescExotic                        // descriptions / comments with unusual content
+	XProtoOnlyPkg                      // one local package has only hand-written .proto files
+	XEntityOnlyFile                    // one local package is a single .j5s file with only an entity
+	XStrayFile                         // ignored user file under <pkg>/service/ or <pkg>/topic/
+	XFileOptions                       // hand-written protos with file-level options; different go_package within one package that also has .j5s files
+	XMultiCommand                      // entities with 2-3 command blocks (named / default) together with query options
+	numExotic       = iota
+)
+
+// AllExotic has the bit of every shape that the seed may switch on.
+const AllExotic Exotic = 1<<numExotic - 1
+
+// XDepPkgPrefix: two DEPENDENCY packages whose names are string prefixes of
+// each other (extone.v1 + extone.v10) exporting the same type names, used by
+// local files. NEVER switched on by the seed (only by Tuning.Force), because
+// HEAD compiles it to a result that depends on the order in which the
+// DependencySet lists its files - see limitation L22. Not part of AllExotic.
+const XDepPkgPrefix Exotic = 1 << numExotic
+
+// depPkgPrefixPct is the probability (percent) with which the seed switches
+// XDepPkgPrefix on. 0 while HEAD has defect L22: with e.g. 8 here the
+// compile-order / listing-order checks report it on the clean tree.
+const depPkgPrefixPct = 0
+
+var exoticNames = [numExotic]string{
+	"dotted_file_names", "pkg_name_prefix", "shared_short_name", "alias_collision",
+	"bare_foreign_ref", "deep_pkg_graph", "entity_rich", "enum_rules_xref",
+	"object_exotic", "proto_rich", "desc_exotic", "proto_only_pkg",
+	"entity_only_file", "stray_subpkg_file", "proto_file_options", "entity_multi_command",
+}
+
+// probability (percent) of each shape per bundle
+var exoticPct = [numExotic]int{14, 14, 16, 24, 15, 11, 22, 17, 15, 17, 15, 11, 11, 9, 16, 22}
+
+// ExoticName returns the Features key suffix of a single shape bit.
+func ExoticName(x Exotic) string {
+	if x == XDepPkgPrefix {
+		return "dep_pkg_name_prefix"
+	}
+	for i := 0; i < numExotic; i++ {
+		if x == 1<<i {
+			return exoticNames[i]
+		}
+	}
+	return ""
+}
+
+// Tuning restricts / forces the exotic shapes (for tests and for bisecting).
+// The zero value means "as decided by the seed".
+type Tuning struct {
+	Force  Exotic // always on (where the config allows the shape)
+	Forbid Exotic // never on; wins over Force
+}
+
+// xfeat records that an exotic shape took effect (at most once per bundle).
+func (g *gen) xfeat(x Exotic) {
+	n := "x_" + ExoticName(x)
+	if g.b.Features[n] == 0 {
+		g.b.Features[n] = 1
+	}
+}
+
 // Generate builds the bundle for a seed. Pure function of (seed, cfg).
 func Generate(seed uint64, cfg Config) *Bundle {
+	return GenerateWith(seed, cfg, Tuning{})
+}
+
+// GenerateWith is Generate with some exotic shapes forced / forbidden. Pure
+// function of its arguments. With Forbid == AllExotic the output is exactly
+// what the generator produced before the exotic shapes were added.
+func GenerateWith(seed uint64, cfg Config, tune Tuning) *Bundle {
 	if cfg.MaxPackages < 1 {
 		cfg.MaxPackages = 1
 	}
@@ -296,12 +470,32 @@ func Generate(seed uint64, cfg Config) *Bundle {
 	g.r.next()
 	g.r.next()
 
+	// The exotic shapes are drawn from a second stream so that switching one
+	// of them off leaves the rest of the decisions of the bundle alone.
+	tr := &rng{s: seed ^ 0xbb67ae8584caa73b}
+	tr.next()
+	tr.next()
+	for i := 0; i < numExotic; i++ {
+		if tr.chance(exoticPct[i]) {
+			g.x |= 1 << i
+		}
+	}
+	if tr.chance(depPkgPrefixPct) {
+		g.x |= XDepPkgPrefix
+	}
+	g.x |= tune.Force
+	g.x &^= tune.Forbid
+	g.firstJ5s = true
+
 	g.planPackages()
 	for _, dp := range g.deps {
 		g.genDepPackage(dp)
 	}
 	for _, p := range g.pkgs {
 		g.genLocalPackage(p)
+	}
+	if g.on(XStrayFile) {
+		g.genStrayFile()
 	}
 
 	for _, p := range g.pkgs {
